@@ -2197,7 +2197,16 @@ impl Context {
             }
             Expr::Block(b) => {
                 if let Some(block) = b {
-                    self.eval_expr(*block)
+                    // A block is a lexical scope (as in the type checker): bindings made
+                    // inside it must not shadow outer ones after the block has ended. The
+                    // bindings live in the current frame (frames follow closure nesting),
+                    // so the frame is cut back to its length at block entry.
+                    let mark = self.valenv.0.front().map(|frame| frame.len());
+                    let res = self.eval_expr(*block);
+                    if let (Some(len), Some(frame)) = (mark, self.valenv.0.front_mut()) {
+                        frame.truncate(len);
+                    }
+                    res
                 } else {
                     (Arc::new(Value::None), unit!(), vec![])
                 }
